@@ -40,6 +40,8 @@ class RecPipe:
 
 def make_array(field, n, w, k, rng):
     a = (rng.integers(1, 100, n)).astype(DT[w])
+    if field in ('a', 'c') and k % 2 == 1:
+        a = a.astype(a.dtype.newbyteorder('>'))          # a column stored big-endian: the payload is its raw bytes as stored, not a native-order copy
     if field == 'b':
         # multi-dimensional column: the count is in elements, not rows — (N,3), and (N,3,2) / (N,3,2,2) where the length allows (e.g. per-halo tensors)
         if n and n % 12 == 0 and k % 3 == 2:
